@@ -591,7 +591,8 @@ def _returned_params(repo, callee):
     from .loader import FuncInfo
     if not isinstance(callee, FuncInfo) or callee.cls is not None:
         return ()
-    key = (id(repo), callee.fq)
+    _ret_cache = repo.__dict__.setdefault('_ret_cache', {})       # kept on the repo: never shared between trees
+    key = callee.fq
     if key in _ret_cache:
         return _ret_cache[key]
     _ret_cache[key] = ()             # recursion guard
@@ -607,7 +608,8 @@ def _returned_params(repo, callee):
 
 
 def access(repo, fi):
-    key = (id(repo), fi.fq)
+    _cache = repo.__dict__.setdefault('_access_cache', {}) if repo is not None else {}
+    key = fi.fq
     if key not in _cache:
         _cache[key] = FuncAccess(repo, fi)
     return _cache[key]
